@@ -1026,6 +1026,14 @@ func (ps *PeerState) GetRoundState() *cstypes.PeerRoundState {
 	return &prs
 }
 
+// GetHeight returns the peer's height. The evidence reactor reads it through
+// its PeerState interface to decide whether a peer is ready for a piece of evidence.
+func (ps *PeerState) GetHeight() uint64 {
+	ps.mtx.Lock()
+	defer ps.mtx.Unlock()
+	return ps.PRS.Height
+}
+
 // SetHasProposal sets the given proposal as known for the peer.
 func (ps *PeerState) SetHasProposal(proposal *types.Proposal) {
 	ps.mtx.Lock()
